@@ -138,6 +138,23 @@ Theorem C05_source_foreach_or_cond_is_model : forall (rg : RG) (rp : RP) sp k s,
 Proof. exact gen_run_foreach_or_conditional_is_model. Qed.
 Print Assumptions C05_source_foreach_or_cond_is_model.
 
+(** the foreach loop read from the source ([Step.foreach_loop]): the iterable is formatted once,
+    before the first item; [i] is written before each execution; items run in order until the first
+    abnormal outcome *)
+Theorem C05_source_foreach_loop_is_model : forall (rg : RG) (rp : RP) sp k s,
+  gen_foreach_loop sp (fun it => cond rg rp sp (mkcnt (k_while k) (Some it) (k_retry k))) s
+  = foreach_loop rg rp sp k s.
+Proof. exact gen_foreach_loop_is_model. Qed.
+Print Assumptions C05_source_foreach_loop_is_model.
+
+(** the nesting while > foreach > conditional, read from the source ([Step.run_step]) *)
+Theorem C05_source_run_step_is_model : forall (rg : RG) (rp : RP) sp s,
+  gen_step_run_step sp (fun s => (OOk, set_step_input sp s)) (fun s => (OOk, unset_step_input sp s))
+    (fun w => while_loop rg rp w sp) (foreach_or_cond rg rp sp no_counters) s
+  = run_step rg rp sp s.
+Proof. exact gen_step_run_step_is_model. Qed.
+Print Assumptions C05_source_run_step_is_model.
+
 (** one while iteration read from the source ([WhileDecorator.exec_iteration]): whileCounter is
     written before the body runs, the body's abnormal outcome ends the loop, and [stop] is evaluated
     after the body, against the context the body left *)
